@@ -66,6 +66,14 @@ pub struct CCase {
   pub slow_item: i64,
   #[serde(default)]
   pub slow_ms: u64,
+  /// a feedback consumer: when subscriber 1 receives the item fb_item, its next callback calls next(fb_v) on the hot source fb_src
+  /// (0 = no feedback) - the downstream callback drives the upstream source re-entrantly, on whatever thread delivers the item
+  #[serde(default)]
+  pub fb_item: i64,
+  #[serde(default)]
+  pub fb_src: i64,
+  #[serde(default)]
+  pub fb_v: i64,
   /// connectables (publish / ref_count / replay over a source term), referenced by the term `conn`
   #[serde(default)]
   pub conn: Vec<crate::seq::ConnCfg>,
@@ -109,6 +117,7 @@ struct Shared {
   aborting: Vec<i64>,
   posting: Vec<i64>,
   slow: (i64, u64),
+  fb: (i64, i64, i64),
   /// cases tagged `count`: every emit step first records how many observers its subject holds
   count: bool,
 }
@@ -118,12 +127,20 @@ fn do_step(sh: &Arc<Shared>, st: &Step) {
     "sub" => {
       let u = st.u;
       let slow = sh.slow;
+      let fb = sh.fb;
+      let fbw = sh.w.clone();
       ev(json!({"ev": "subcall", "u": u}));
       let sb = sh.root.subscribe(
         move |x| {
           ev(json!({"ev": "cbstart", "u": u, "k": "n", "v": if x >= OBS_BASE { OBS_BASE } else { x }}));
           if slow.1 > 0 && x == slow.0 {
             arx_vstd::thread::sleep(Duration::from_millis(slow.1));
+          }
+          if u == 1 && fb.1 > 0 && x == fb.0 {
+            let s = fbw.lock().unwrap().sbj[fb.1 as usize - 1].clone();
+            ev(json!({"ev": "emitcall", "src": fb.1, "k": "n", "v": fb.2, "fb": 1}));
+            s.next(fb.2);
+            ev(json!({"ev": "emitret", "src": fb.1, "k": "n", "v": fb.2, "fb": 1}));
           }
           ev(json!({"ev": "cbend", "u": u, "k": "n", "v": if x >= OBS_BASE { OBS_BASE } else { x }}));
         },
@@ -285,7 +302,7 @@ pub fn run_ccase(case: &CCase, strategy: Strategy, log_locks: bool, budget: u64)
       "default_queue" => Sched::Default(schedulers::DefaultScheduler::new()),
       _ => Sched::None,
     };
-    let sh = Arc::new(Shared { w: w.clone(), root, handles: Mutex::new(BTreeMap::new()), sched, fut: Mutex::new(None), aborting: case.aborting.clone(), posting: case.posting.clone(), slow: (case.slow_item, case.slow_ms), count: case.tags.iter().any(|t| t == "count") });
+    let sh = Arc::new(Shared { w: w.clone(), root, handles: Mutex::new(BTreeMap::new()), sched, fut: Mutex::new(None), aborting: case.aborting.clone(), posting: case.posting.clone(), slow: (case.slow_item, case.slow_ms), fb: (case.fb_item, case.fb_src, case.fb_v), count: case.tags.iter().any(|t| t == "count") });
     for st in &case.pre {
       do_step(&sh, st);
     }
@@ -325,7 +342,7 @@ pub fn trace_of(id: u64, case: &CCase, r: &RunResult) -> (Vec<String>, String) {
     let o = v.as_object_mut().unwrap();
     o.insert("t".into(), json!(e.tid));
     o.insert("clk".into(), json!(e.clock / 1_000_000));
-    for f in ["u", "src", "v", "task", "lock", "cv", "issub", "cnt"] {
+    for f in ["u", "src", "v", "task", "lock", "cv", "issub", "cnt", "fb"] {
       o.entry(f).or_insert(json!(0));
     }
     o.entry("k").or_insert(json!(""));
